@@ -8,8 +8,10 @@ import (
 	"math"
 	"strconv"
 	"sync"
+	"sync/atomic"
 	"testing"
 	"time"
+	"unsafe"
 
 	"github.com/gotid/god/internal/verifdrv"
 	"github.com/gotid/god/internal/verifexec"
@@ -24,7 +26,10 @@ import (
 type verifC16Op struct {
 	Op      string         `json:"op"` // add | drop | tick | flush | par | overlap
 	N       int            `json:"n"`
-	Via     string         `json:"via"` // overlap: the Execute held is the one of a "tick" or of a "flush"
+	Second  string         `json:"second"` // wgate: what runs while the first report is being written: flush | setwriter
+	N2      int            `json:"n2"`     // wgate: timed tasks of the second Metrics instance
+	D2      int            `json:"d2"`     // wgate: drops of the second Metrics instance
+	Via     string         `json:"via"`    // overlap: the Execute held is the one of a "tick" or of a "flush"
 	Threads [][]verifC16Op `json:"threads"`
 }
 
@@ -62,16 +67,42 @@ type verifC16Batch struct {
 	Named  bool  `json:"named"`  // report carries the metrics name
 }
 
+// verifC16Writer is the process-wide report writer: reports are queued per metrics name; a Write can be held.
 type verifC16Writer struct {
-	mu   sync.Mutex
-	last *StatReport
+	p      *verifexec.Probe
+	mu     sync.Mutex
+	byName map[string][]*StatReport
+	gate   chan struct{} // non-nil: the next Write parks (inside stat's writeLock)
+	parked int
 }
 
 func (w *verifC16Writer) Write(r *StatReport) error {
 	w.mu.Lock()
-	w.last = r
+	gate := w.gate
+	w.gate = nil
+	if gate != nil {
+		w.parked++
+	}
+	w.mu.Unlock()
+	if gate != nil {
+		w.p.Bump(func() {})
+		<-gate
+	}
+	w.mu.Lock()
+	w.byName[r.Name] = append(w.byName[r.Name], r)
 	w.mu.Unlock()
 	return nil
+}
+
+func (w *verifC16Writer) pop(name string) *StatReport {
+	w.mu.Lock()
+	defer w.mu.Unlock()
+	q := w.byName[name]
+	if len(q) == 0 {
+		return nil
+	}
+	w.byName[name] = q[1:]
+	return q[0]
 }
 
 // verifC16Tap sits in front of the executor's container and records what Execute receives.
@@ -79,6 +110,7 @@ type verifC16Tap struct {
 	executors.TaskContainer
 	p       *verifexec.Probe
 	w       *verifC16Writer
+	name    string
 	mu      sync.Mutex
 	batches []verifC16Batch
 	gate    chan struct{} // non-nil: Execute parks at entry, before looking at what it received
@@ -106,17 +138,14 @@ func (c *verifC16Tap) Execute(v any) {
 		b.DurMs = int64(pair.duration / time.Millisecond)
 	}
 	c.TaskContainer.Execute(v)
-	c.w.mu.Lock()
-	if r := c.w.last; r != nil {
+	if r := c.w.pop(c.name); r != nil {
 		b.Count = int(math.Round(float64(r.ReqsPerSecond) * float64(logInterval/time.Second)))
 		b.RDrops = r.Drops
 		b.SumMs = int64(math.Round(float64(r.Average) * float64(b.Count)))
-		b.Named = r.Name == "verif"
-		c.w.last = nil
+		b.Named = true
 	} else {
-		b.Count = -1
+		b.Count = -1 // the report of this period never reached the writer
 	}
-	c.w.mu.Unlock()
 	b.End = c.p.Next()
 	c.mu.Lock()
 	c.batches = append(c.batches, b)
@@ -131,15 +160,24 @@ func TestVerifDriverC16(t *testing.T) {
 			return map[string]any{"error": err.Error()}
 		}
 		timex.VerifSetNow(time.Hour)
-		w := &verifC16Writer{}
+		w := &verifC16Writer{byName: map[string][]*StatReport{}}
 		SetReportWriter(w)
 		defer SetReportWriter(nil)
 		m := NewMetrics("verif")
 		p := verifexec.Attach(m.executor)
-		tap := &verifC16Tap{p: p, w: w}
+		w.p = p
+		tap := &verifC16Tap{p: p, w: w, name: "verif"}
 		executors.VerifWrapContainer(m.executor, func(inner executors.TaskContainer) executors.TaskContainer {
 			tap.TaskContainer = inner
 			return tap
+		})
+		// a second Metrics instance of the same process (used by wgate); sequence numbers stay global
+		m2 := NewMetrics("verif2")
+		p2 := verifexec.Attach(m2.executor)
+		tap2 := &verifC16Tap{p: p, w: w, name: "verif2"}
+		executors.VerifWrapContainer(m2.executor, func(inner executors.TaskContainer) executors.TaskContainer {
+			tap2.TaskContainer = inner
+			return tap2
 		})
 
 		var (
@@ -214,6 +252,88 @@ func TestVerifDriverC16(t *testing.T) {
 				if p.Bounded(what, wg.Wait) {
 					p.Settle(what)
 				}
+			case "wgate":
+				// The report of the first instance's period is being written (the writer is held, inside the
+				// package's write lock) while the second instance flushes its own period / the writer is set again.
+				for k := 0; k < op.N2; k++ {
+					mu.Lock()
+					next++
+					id := next
+					j := len(adds)
+					adds = append(adds, verifC16Add{ID: id, Call: p.Next()})
+					mu.Unlock()
+					m2.Add(Task{Duration: time.Duration(id) * time.Millisecond, Description: strconv.Itoa(id)})
+					mu.Lock()
+					adds[j].Ret = p.Next()
+					mu.Unlock()
+				}
+				for k := 0; k < op.D2; k++ {
+					m2.AddDrop()
+					mu.Lock()
+					drops++
+					mu.Unlock()
+				}
+				gate := make(chan struct{})
+				w.mu.Lock()
+				w.gate = gate
+				w.parked = 0
+				w.mu.Unlock()
+				first := make(chan struct{})
+				go func() {
+					defer close(first)
+					simple(verifC16Op{Op: op.Via})
+				}()
+				held := p.UntilFor(verifexec.Patience/4, func() bool {
+					w.mu.Lock()
+					defer w.mu.Unlock()
+					return w.parked > 0
+				})
+				second := make(chan struct{})
+				go func() {
+					defer close(second)
+					if op.Second == "setwriter" {
+						SetReportWriter(w)
+					} else {
+						m2.executor.Flush()
+					}
+				}()
+				if held {
+					// the second one finishes, or queues up on the write lock (sync.Mutex state: waiters >> 3)
+					state := (*int32)(unsafe.Pointer(&writeLock))
+					for dl := time.Now().Add(verifexec.Patience / 4); time.Now().Before(dl); {
+						select {
+						case <-second:
+							dl = time.Now()
+						default:
+							if atomic.LoadInt32(state)>>3 > 0 {
+								dl = time.Now()
+							} else {
+								time.Sleep(100 * time.Microsecond)
+							}
+						}
+					}
+				}
+				w.mu.Lock()
+				w.gate = nil
+				w.mu.Unlock()
+				close(gate)
+				for _, ch := range []chan struct{}{first, second} {
+					select {
+					case <-ch:
+					case <-time.After(verifexec.Patience):
+						p.SetHung(what + ": did not return")
+					}
+				}
+				if op.Second == "setwriter" {
+					p2.Bounded(what, func() { m2.executor.Flush() }) // close the second instance's period
+				}
+				p.Settle(what)
+				p2.Settle(what)
+				if op.Via == "tick" {
+					mu.Lock()
+					ticks[len(ticks)-1].Done = p.Next()
+					mu.Unlock()
+				}
 			case "overlap":
 				// an Execute (of a tick's or an explicit Flush) is held right after RemoveAll while N more
 				// tasks are added; then it goes on
@@ -269,16 +389,25 @@ func TestVerifDriverC16(t *testing.T) {
 		_, _, _, queued := p.State()
 		mu.Lock()
 		defer mu.Unlock()
+		if hung == "" {
+			hung = p2.Hung()
+		}
 		tap.mu.Lock()
 		defer tap.mu.Unlock()
-		for _, b := range tap.batches {
+		tap2.mu.Lock()
+		defer tap2.mu.Unlock()
+		all := append(append([]verifC16Batch{}, tap.batches...), tap2.batches...)
+		for _, b := range all {
 			if hung == "" && (b.Count < 0 || !b.Named) {
-				hung = "an executed batch produced no report under the metrics name"
+				hung = "the report of an executed period never reached the report writer"
 			}
+		}
+		if hung == "" && len(w.byName["verif"])+len(w.byName["verif2"]) > 0 {
+			hung = "the report writer received a report no executed period accounts for"
 		}
 		return map[string]any{
 			"adds": append([]verifC16Add{}, adds...), "calls": append([]verifC16Call{}, calls...),
-			"ticks": append([]verifC16Tick{}, ticks...), "batches": append([]verifC16Batch{}, tap.batches...),
+			"ticks": append([]verifC16Tick{}, ticks...), "batches": all,
 			"perop": []any{}, "hung": hung, "pending": queued, "drops": drops,
 		}
 	})
